@@ -389,3 +389,98 @@ func extraRegistry(ctx *Ctx, id string, ev map[string]interface{}, report func(s
 	ev["extra_discharged"] = intOf(ev["extra_discharged"]) + nOK
 	ev["registry"] = map[string]interface{}{"keys": len(ks), "samples": samples}
 }
+
+
+// extraAbsPure: static side conditions of the abstract pure methods (no effects, no reads of exempt heap, determinism).
+func extraAbsPure(ctx *Ctx, id string, ev map[string]interface{}, report func(string, map[string]interface{}, bool), known map[string]knownFinding) {
+	checked, problems := ctx.checkAbsMethods()
+	for _, p := range problems {
+		name := "absmethod#pure@" + p
+		if kf, ok := known[name]; ok {
+			fmt.Printf("KNOWN-FINDING: property=%s %s %s\n", id, name, kf.What)
+			continue
+		}
+		report(name, map[string]interface{}{"kind": "absmethod", "what": "an implementation of an abstract pure method (Size/Type/GetChildren ...) has an effect or reads writer/byte state, so treating it as a function of the box is not justified: " + p}, true)
+	}
+	ev["extra_obligations"] = intOf(ev["extra_obligations"]) + len(checked)
+	ev["extra_discharged"] = intOf(ev["extra_discharged"]) + len(checked) - len(problems)
+	ev["absmethods"] = map[string]interface{}{"implementations_checked": len(checked), "problems": problems}
+}
+
+// extraPairs: which types with both Encode(w) and EncodeSW(sw) have a common C03 trace specification (the same tagged
+// ensures clause applied to both methods by one schema), are canonical wrappers, or are not covered.
+func extraPairs(ctx *Ctx, id string, ev map[string]interface{}, report func(string, map[string]interface{}, bool), known map[string]knownFinding) {
+	type pair struct{ enc, encSW *ssa.Function }
+	pairs := map[string]*pair{}
+	for _, k := range ctx.sortedFuncKeys() {
+		fn := ctx.funcs[k]
+		if fn.Pkg == nil || fn.Pkg.Pkg.Name() != "mp4" || fn.Signature.Recv() == nil || fn.Synthetic != "" {
+			continue
+		}
+		if fn.Name() != "Encode" && fn.Name() != "EncodeSW" {
+			continue
+		}
+		if fn.Signature.Params().Len() != 1 {
+			continue
+		}
+		pt := typeKeyFull(fn.Signature.Params().At(0).Type())
+		tn := typeKey(derefOrSelf(fn.Signature.Recv().Type()))
+		if pairs[tn] == nil {
+			pairs[tn] = &pair{}
+		}
+		if fn.Name() == "Encode" && pt == "io.Writer" {
+			pairs[tn].enc = fn
+		}
+		if fn.Name() == "EncodeSW" && strings.HasSuffix(pt, "bits.SliceWriter") {
+			pairs[tn].encSW = fn
+		}
+	}
+	tagged := func(fn *ssa.Function) map[string]bool {
+		out := map[string]bool{}
+		if c := ctx.contractOf(fn); c != nil {
+			for _, en := range c.Ensures {
+				if contains(en.Tags, "C03") {
+					out[en.Text] = true
+				}
+			}
+		}
+		return out
+	}
+	var names []string
+	for tn := range pairs {
+		names = append(names, tn)
+	}
+	sort.Strings(names)
+	var common, wrappers, uncovered []string
+	for _, tn := range names {
+		p := pairs[tn]
+		if p.enc == nil || p.encSW == nil {
+			continue
+		}
+		a, b := tagged(p.enc), tagged(p.encSW)
+		shared := false
+		for t := range a {
+			if b[t] {
+				shared = true
+			}
+		}
+		isWrapper := false
+		for t := range a {
+			if strings.Contains(t, "trApp(old(ghost(p1).tr), chEnc(p0))") {
+				isWrapper = true
+			}
+		}
+		switch {
+		case shared:
+			common = append(common, tn)
+		case isWrapper:
+			wrappers = append(wrappers, tn)
+		default:
+			uncovered = append(uncovered, tn)
+		}
+	}
+	ev["extra_obligations"] = intOf(ev["extra_obligations"]) + len(common) + len(wrappers)
+	ev["extra_discharged"] = intOf(ev["extra_discharged"]) + len(common) + len(wrappers)
+	ev["encoder_pairs"] = map[string]interface{}{"same_trace_specification_on_both": common, "canonical_wrapper_contract": wrappers, "not_covered": uncovered}
+	fmt.Printf("encoder pairs: %d with a common trace specification, %d canonical wrappers, %d not covered %v\n", len(common), len(wrappers), len(uncovered), uncovered)
+}
